@@ -279,7 +279,26 @@ def guard_points(tc, JU, t):
                                 % (path, T.show(q, 2)[:80], dv, nv, T.show(tcr, 3)[:200]), npts)
     return None, npts
 
-def check_pair(rep, R, p, t, rn=lambda k: 'R07.' + k):
+def _same_over_reals(JC, JU):
+    """the returning leaves of the checked form equal the unchecked form's value on the same path as real-valued functions
+    (conversions are the identity, integers exact): (ok, detail).  Used where the property asks for the same *function*, not
+    for bit-identical arithmetic (C16 on the Frustum twins)."""
+    from engine import poly as P_
+    from .common import lift_all
+    n = 0
+    for lits, leaf in T.leaves(lift_all(JC, [400000]), 100000):
+        if leaf.op != 'tuple': continue
+        other = T.resolve(lift_all(JU, [400000]), dict(lits))
+        if other.op != 'tuple': return None, 'the unchecked form still branches on this path'
+        ctx = P_.Ctx(); ctx.cancel = True
+        for k, (a, b) in enumerate(zip(leaf.args, other.args)):
+            if a is b: continue
+            if not ctx.requal(ctx.rat(a), ctx.rat(b)):
+                return False, 'output %d: the checked form computes %s, the unchecked form %s - different functions of the inputs' % (k, P_.show_rat(ctx.rat(a), ctx)[:140], P_.show_rat(ctx.rat(b), ctx)[:140])
+        n += 1
+    return True, '%d returning leaves equal as real-valued functions' % n
+
+def check_pair(rep, R, p, t, rn=lambda k: 'R07.' + k, exact=True):
     """all twin rules for one checked / unchecked pair"""
     oid = p['id']
     SC, SU = R.get(p['C']), R.get(p['U'])
@@ -293,6 +312,15 @@ def check_pair(rep, R, p, t, rn=lambda k: 'R07.' + k):
         rep.ob(oid, rn('same'), UNDECIDED, str(e), where); return
     if n == 0:
         rep.ob(oid, rn('same'), VIOLATED, 'the checked form has no returning path', where)
+    elif not ok and not exact:
+        from engine import poly as P_, polycheck as PC_
+        try:
+            ok2, det2 = _same_over_reals(JC, JU)
+        except (P_.NotPoly, PC_.Undecided, vg.Unsupported, OverflowError) as e:
+            ok2, det2 = None, 'the twins are different computations and could not be compared as real-valued functions: %s' % str(e)[:160]
+        # (undecidable: no obligation here - bit-identity of the twins is C07's claim, and C07 reports the difference)
+        if ok2 is not None: rep.ob(oid, rn('same'), HOLDS if ok2 else VIOLATED, det2, where)
+        if ok2: ok = True
     else:
         rep.ob(oid, rn('same'), HOLDS if ok else VIOLATED, det if not ok else '%d returning leaves compared' % n, where,
                sample=None if not ok else '%s: %d returning leaves identical; throw region = %s' % (oid, n, T.show(SC.throw_cond(), 3)[:300]))
